@@ -47,7 +47,17 @@ class Ctx:
     copy: str = ""
 
 
+def _is_logging_call(n: ast.AST) -> bool:
+    return isinstance(n, ast.Call) and isinstance(n.func, ast.Attribute) and isinstance(n.func.value, ast.Name) \
+        and n.func.value.id == "logger"
+
+
 def may_raise(node: ast.AST) -> bool:
+    # a statement that only logs cannot raise (the logging module swallows handler errors): trusted
+    if isinstance(node, ast.Expr) and _is_logging_call(node.value) and not any(
+            isinstance(x, (ast.Await, ast.Subscript)) or (isinstance(x, ast.Call) and x is not node.value and not isinstance(x.func, ast.Attribute))
+            for x in ast.walk(node.value)):
+        return False
     for n in ast.walk(node):
         if isinstance(n, (ast.Call, ast.Await, ast.Subscript, ast.Raise, ast.Assert, ast.Yield, ast.YieldFrom)):
             return True
@@ -265,8 +275,9 @@ class CFG:
                     out.append(n)
         return out
 
-    def must_pass(self, src: int, via: set[int], dst: set[int]) -> tuple[bool, list[int]]:
-        """Does every path from src to any node of dst pass through a node of via?  Returns (ok, witness path)."""
+    def must_pass(self, src: int, via: set[int], dst: set[int], skip_edge=None) -> tuple[bool, list[int]]:
+        """Does every path from src to any node of dst pass through a node of via?  Returns (ok, witness path).
+        skip_edge(node, successor id, kind) -> True removes an edge from consideration."""
         parent: dict[int, int | None] = {src: None}
         todo = [src]
         while todo:
@@ -278,8 +289,10 @@ class CFG:
                     path.append(cur)
                     cur = parent[cur]
                 return False, list(reversed(path))
-            for b, _ in self.succ.get(n, []):
+            for b, k in self.succ.get(n, []):
                 if b in via or b in parent:
+                    continue
+                if skip_edge is not None and skip_edge(self.nodes[n], b, k):
                     continue
                 parent[b] = n
                 todo.append(b)
